@@ -232,15 +232,26 @@ def gen_case(rnd, kind):
         g = G(cfg=ACFG, rnd=rnd)
         t = g.term(g.choice([INT, REAL, BOOL]))
     else:   # toplevel equalities
-        g = G(cfg=Cfg(max_depth=3, theories={"bool", "int", "real", "bv", "str"}, bv_widths=[2, 4], nsyms=3), rnd=rnd)
+        g = G(cfg=Cfg(max_depth=3, theories={"bool", "int", "real", "bv", "str", "quant"}, bv_widths=[2, 4], nsyms=3,
+                      quant_types=[BOOL, BV(2)]), rnd=rnd)
         conj = []
         for _ in range(g.rnd.randint(1, 4)):
-            ty = g.choice([INT, REAL, BV(2), STRING, INT])
+            # (BV2 equalities next to quantifiers over BV2 variables of the same names: propagation must not capture)
+            ty = g.choice([INT, REAL, BV(2), STRING, INT, BV(2), BV(2)])
             a = g.symbol(ty) if g.pct(70) else g.constant(ty)
             b = g.symbol(ty) if g.pct(50) else g.constant(ty)
             conj.append(app("EQUALS", a, b))
         for _ in range(g.rnd.randint(0, 2)):
             conj.append(g.term(BOOL, 3))
+        eqs = [c for c in conj if c[0] == "EQUALS" and c[2][0][0] == "SYMBOL" and c[2][1][0] == "SYMBOL"
+               and c[2][0][1][1] == BV(2)]
+        if eqs and g.pct(60):
+            # a quantifier binding one side of a top-level equality, with the other side free in its body
+            e = g.choice(eqs)
+            a_, b_ = e[2] if g.pct(50) else (e[2][1], e[2][0])
+            rel = g.choice([("BV_ULT", (), (a_, b_)), ("NOT", (), (("EQUALS", (), (a_, b_)),)),
+                            ("EQUALS", (), (("BV_ADD", (), (a_, ("CONST", (BV(2), 1), ()))), b_))])
+            conj.append((g.choice(["FORALL", "EXISTS"]), (a_[1],), (rel,)))
         g.rnd.shuffle(conj)
         t = app("AND", *conj) if len(conj) > 1 else conj[0]
     return t, g, g.cards()
